@@ -46,10 +46,10 @@ checks = {
    text="three complete finite spaces through the real code: (1) Branch.Target on real Branch objects (root and fork branches straddling either median window; and with 0..149 of the 150 window headers pruned from memory: the required answer or an error, never a nil target without error) for all 3^6 order/tie patterns of the six headers that matter x 11 time-span classes (incl. more than 2^31 s apart) x bits patterns, compared with a reference implementation of the network's 144-block algorithm; (2) every exponent byte 0..255 x 11 mantissas through ProcessHeader and HandleHeadersMessage: no panic for any encoding, refusal whenever the hash exceeds a well-defined target (incl. zero targets); (3) both real mainnet fixture chains (incl. the 556767 split) accepted with difficulty checking on, and 15 single-field mutations of every header in a window refused with the right error class; (4) a header with real proof of work (nonce mined once, recorded as a constant) on a fork that is not the most-work branch where the two branches require different bits: accepted iff its bits equal the target computed on its own branch; (5) a second mined header claiming the proof-of-work limit at exactly the first height with an enforced target (556767) on a chain that requires half the limit: refused as invalid target; (6) the real 725000 chain after it lost the lead to a heavier mock branch, with and without Clean / Save in between: the following real headers are accepted at the right heights on the demoted chain",
    note="apart from the one recorded mined nonce no header meeting a small target can be constructed, so the accept side rests on the real chain; negative/overflowing encodings only need to not crash; reference DAA/compact codec in /verif/ref written from the published node algorithm",
    tech="bounded-exhaustive enumeration of finite input spaces on the implementation against a reference (exhaustive: true)"),
- "C03": dict(engine="hdrmc+netmc", cat="model_checking", ref="DESIGN.md 3, 5, 7 C03",
+ "C03": dict(engine="hdrmc+netmc+schedmc", cat="model_checking", ref="DESIGN.md 3, 5, 7 C03",
    text="repository part: all histories under a synthetic split table (required split at height 3, foreign splits at 2 and 3; forks created below and grown through the split heights; foreign split headers offered in every state with known and unknown parents): no header but the required one is ever held at the required height on any branch, foreign split headers always answered wrong-chain; plus the real mainnet table on the real 556000-556800 chain (BSV accepted, BCH / arbitrary headers refused at 556767 on the main chain and on forks started at 556765-556767, published constants, verify-only locator). Peer part: BFS over message histories (version/verack in every order and repetition, 8 kinds of headers replies, other letters) on a real node, full and verify-only, starting from a genesis-only repository and from one that already knows the first headers of the reply: Verified()/IsReady() iff the first header of the first headers message after handshake completion is the BSV split header, otherwise disconnected",
    note="peer part: node runs free on an in-memory connection (scheduling inside the node not enumerated; violations must reproduce 3/3); the BTC split header is not available offline, BTC is covered through the synthetic table and the constants check",
-   tech="explicit-state model checking of the implementation (two engines: header repository BFS with reference model; message-history BFS on a real node)"),
+   tech="explicit-state model checking of the implementation (header repository BFS with reference model; message-history BFS on a real node) and stateless model checking (exhaustive schedule enumeration under a cooperative scheduler) of several connections verified at the same time"),
  "C13": dict(engine="netmc", cat="model_checking", ref="DESIGN.md 5, 7 C13",
    text="BFS over all message histories (30 letters: handshake messages in any order/repetition, headers of 8 kinds, addr, inv, tx, block, extended messages, getaddr, protoconf, reject, unknown commands...) from connect and from handshake-complete, for full nodes with and without tx manager and verify-only nodes registered with a NodeManager, also with a repository that knows no chain split points, and with a framed headers message followed by the unframed payload of a verifying reply: while Verified() is false no ProcessHeader / peer-book Add,UpdateScore / tx-manager entry / processor call may be recorded by the spies, the node may only have sent version, verack, ping, pong, protoconf and one getheaders, and NodeManager requests must not be routed through it; verify-only nodes disconnect right after successful verification. Manager part: 1-3 connections registered with one NodeManager, each peer in one of 5 protocol states (silent, version only, handshake complete, handshake complete + headers, verified), every sequence of up to 3 (thorough 4) RequestHeaders / RequestBlock / SendTx calls: no getheaders beyond the connection's own verification request, no getdata, no tx and no block request may reach a connection whose peer is not verified. Stalled-peer part: the peer stops reading (the node's writes block) before the version, the verack, the verifying reply or after it, followed by every sequence of up to 2 further messages, for verify-only and full nodes: a verify-only connection still disconnects at once and passes nothing on",
    note="node runs free on an in-memory connection; oracles are spy observations (conclusive when they fire); state key = hooked node dump + spy counters + sent-command counts",
@@ -112,7 +112,23 @@ extra9 = {
  "C17": "; two marks on doubly nested forks next to an unrelated earlier branch (6 headers)",
  "C18": "; mark, growth and pruning at depth 2 (removed blocks' hashes below what the main branch holds in memory)",
 }
+# additions of seed round 10
+extra10 = {
+ "C01": "; the lookup API is called after every operation of every history (a read must not influence later answers); grow, prune, grow, prune scenarios",
+ "C03": "; concurrent part (schedmc): two or three real nodes past their handshake share one repository whose lock is a switch point, each handles its peer's verification reply in every interleaving up to 2 preemptions: a peer is verified exactly when its own reply starts with the BSV split header",
+ "C05": "; scenarios in which every call into the header repository is a switch point, with a header or reorganisation arriving between two reads of one round (preemption bound 1)",
+ "C06": "; polls while the first request is outstanding request nothing; every later window asks one further announcer",
+ "C10": "; lookups after every operation",
+ "C11": "; Save followed by Load on the same instance; a chain migrated from legacy files by this very start",
+ "C14": "; 18 other connections of the process fail inside a message first (peer gone mid-payload, wrong checksum, undecodable payload); a decoding / short-read error on well-formed traffic is a violation",
+ "C15": "; non-canonical and cut varints; per-header transaction counts; headers payloads ending at every offset",
+ "C16": "; the real BitcoinNode.run under the scheduler over a scripted connection (fixed set-up phase, then block request, Cancel and peer drop in every interleaving up to one preemption)",
+ "C17": "; marks on headers of a chain migrated from legacy files by this very start",
+ "C18": "; lookups after every operation; grow, prune, grow, prune scenarios",
+}
 for k, v in extra.items():
+    checks[k]["text"] += v
+for k, v in extra10.items():
     checks[k]["text"] += v
 for k, v in extra9.items():
     checks[k]["text"] += v
